@@ -190,6 +190,44 @@ inductive Run : State → List Op → List (List Ev) → State → Prop where
   | cons {σ σ1 σ2 : State} {op : Op} {ops : List Op} {evs : List Ev} {evss : List (List Ev)} :
       Step σ op evs σ1 → Run σ1 ops evss σ2 → Run σ (op :: ops) (evs :: evss) σ2
 
+/-! ## Who owns a destination name; histories with lookups (extension 2026-09-30)
+
+From the statements of C13 and C14 ("delivers each addressed message ... to the connection owning the
+destination name at that moment"): a unique connection name is owned by the connection it was given
+to for as long as that connection is connected (unique names are never reused); a well-known name is
+owned by the head of its queue; a name nobody was given and nobody requested has no owner. -/
+def State.ownerOf (σ : State) : Dest → Option Conn
+  | .unique k => if σ.connected k then some k else none
+  | .foreign => none
+  | .wellKnown n => ((σ.queue n).head?).map Entry.conn
+
+/-- What one step of a history with lookups shows. -/
+inductive HEv where
+  | events (evs : List Ev)
+  | delivered (to : Option Conn)     -- the receiver of an addressed message; none: nobody
+  deriving DecidableEq, Repr
+
+/-- GetNameOwner of any name. -/
+def ownerOfAnswer (σ : State) (c : Conn) (d : Dest) : Ev :=
+  match σ.ownerOf d with
+  | some o => .replyOwner c o
+  | none => .replyNoOwner c          -- org.freedesktop.DBus.Error.NameHasNoOwner
+
+/-- The allowed steps of a history with lookups: a name operation is a `Step`; an addressed message is
+received by the owner of its destination AT THAT MOMENT and by nobody else, and changes nothing;
+GetNameOwner names that owner. -/
+def StepL (σ : State) (h : HStep) (o : HEv) (σ' : State) : Prop :=
+  match h, o with
+  | .op op, .events evs => Step σ op evs σ'
+  | .send _ d, .delivered to => σ' = σ ∧ to = σ.ownerOf d
+  | .ask c d, .events evs => σ' = σ ∧ evs = [ownerOfAnswer σ c d]
+  | _, _ => False
+
+inductive RunL : State → List HStep → List HEv → State → Prop where
+  | nil (σ : State) : RunL σ [] [] σ
+  | cons {σ σ1 σ2 : State} {h : HStep} {hs : List HStep} {o : HEv} {os : List HEv} :
+      StepL σ h o σ1 → RunL σ1 hs os σ2 → RunL σ (h :: hs) (o :: os) σ2
+
 /-! ## An executable instance
 
 `exec names fresh σ op`: the step that drops a replaced owner (`keepOld = false`), names a new
